@@ -70,6 +70,8 @@ def host_call(lcd, c: dict, j: int = 0) -> None:
             kw["width"] = i[3]
         if t[0]:
             kw["label"] = text(t[0])
+        elif (i[1] + i[2]) % 2 == 1:
+            kw["label"] = ""                  # an empty label is no label (spelled out in every second call without one)
         lcd.progress(i[0], i[1], i[2], **kw)
     else:
         raise AssertionError(a)
@@ -160,6 +162,8 @@ def render(cases: list, runtime) -> Script:
                 kw += f", style={st[0]!r}"
                 if t[0]:
                     kw += f", label={text(t[0])!r}"
+                elif (i[1] + i[2]) % 2 == 1:
+                    kw += ', label=""'               # as on the host side
                 s.add(f"{n}.progress({iv(i[0])}, {iv(i[1])}, {iv(i[2])}{kw})")
             else:
                 raise AssertionError(a)
